@@ -86,6 +86,14 @@ class Worker:
         self.by_kind = {lf.k: lf for lf in self.layers if lf.t == "Extractor"}
         self.helpers = {f.__name__: f for f in c01_layers.cli_helpers()}
         self.rec = c01_monitor.Recorder(self.layers, self.fam, extra_line_codes=[f.__code__ for f in self.helpers.values()])
+        # progress monitor: every `while` loop of the library (modules imported so far + the lazily imported extractors)
+        import importlib
+        from sharepoint2text.parsing import router
+        for _ft, (mod, _fn) in router._EXTRACTOR_REGISTRY.items():
+            importlib.import_module(mod)
+        pkg = os.path.dirname(os.path.abspath(sharepoint2text.__file__)) + os.sep
+        self.rec.loops = c01_monitor.find_while_loops(pkg)
+        self.LoopOverrun = c01_monitor.LoopOverrun
         self.rec.install(line_events=False)
         self.classify = lambda e: c01_monitor.classify(e, self.fam)
         self.archive_mod = __import__(c01_layers.ARCHIVE_MOD, fromlist=["x"])
@@ -184,6 +192,8 @@ class Worker:
         try:
             kind, what = self.call(job, data)
             rec.begin(inject=inject, dry=(op == "dry"))
+            # a library loop may iterate linearly in what it walks; decompressed parts are larger than the file
+            rec.loop_bound = 256 * max(len(data), int(job.get("approx_size", 0))) + (1 << 20)
             if kind == "gen":
                 n, esc = 0, "Done"
                 try:
@@ -219,6 +229,12 @@ class Worker:
         out["sha"] = __import__("hashlib").sha256(data).hexdigest()[:16]
         out["size"] = len(data)
         out["detail"] = rec.exc_detail[:6]
+        if rec.loop_count:
+            (lc, ll), ln_ = max(rec.loop_count.items(), key=lambda kv: kv[1])
+            out["loop_max"] = [lc.co_name, ll, ln_]
+        if rec.loop_over:
+            out["loop_over"] = list(rec.loop_over)
+            out["ev"] = [e for e in ev if e["a"] not in ("Outcome", "CliOut")] + [{"a": "LoopOverrun"}]
         if rec.problems:
             out["problems"] = rec.problems[:5]
         if op == "inject":
